@@ -152,6 +152,10 @@ impl PieceType for Pawn {
             let dest = BitBoard::from(Pos::new(ep_file, dest_rank));
             let capture_pawn = Pos::new(ep_file, rank);
 
+            if (dest & mask).none() {
+                return;
+            }
+
             // an en-passant capture removes two pawns from their squares at once, so the
             // pin and check information of the board does not describe it: decide each
             // capture directly by looking at the king on the occupancy after the capture
@@ -283,7 +287,7 @@ impl King {
                         .iter()
                         .all(|dest| board.is_legal_king_position(dest))
                     {
-                        moves ^= castle_tiles & chess_lookup::CASTLE_MOVES
+                        moves ^= castle_tiles & chess_lookup::CASTLE_MOVES & mask
                     }
                 }
             }
